@@ -1,29 +1,25 @@
-/* C17 (Schnorr half-aggregation): oracle contracts and ghost state.
+/* C17 (Schnorr half-aggregation): oracle contracts and ghost state (reworked after audit 1: every usage check is
+ * keyed on VALUES, not on call order or call counts).
  *
- * Style: the loops of secp256k1_schnorrsig_aggverify / _inc_aggregate run a caller-chosen number of
- * times, so their proof is by loop contract (hooks/C17_halfagg_loops.diff).  A loop contract forgets
- * everything the loop assigns, including ghost call logs, so wiring is checked INSIDE each iteration:
- * the harness publishes its expectations in ghost variables the code never assigns (c17_aggsig, ...),
- * every replaced callee compares what it was handed against them and raises the STICKY flag
- * verif_c17_bad on a mismatch; the loop invariants say the flag is still 0.  Likewise verif_c17_rej is
- * raised when an oracle verdict was "reject"; the invariant says no iteration continued after one.
- * All of these clauses constrain ghost variables only.
+ * The harness picks an arbitrary signature index verif_c17_gk and publishes, in ghost variables that neither the
+ * code nor the contracts assign, the values that belong to it (r_gk, m_gk, stored x/y of pk_gk, s_gk) and one
+ * arbitrary position of the running hash stream with the byte expected there.  Each replaced callee raises a sticky
+ * HIT flag when it is called on exactly those values (in either operand order where the operation commutes) and logs
+ * its answer for that call; nothing is said about other calls, their number or their order.  The harness then
+ * states, on the ACCEPT path only, that the hits the specification needs have happened.  All of these clauses
+ * constrain ghost variables only.
  *
  * ASSUMED (algebraic residue): secp256k1_ge_set_xo_var (lift_x verdict), secp256k1_gej_add_ge_var,
  * secp256k1_gej_add_var (group law), secp256k1_ecmult, secp256k1_scalar_mul, and ecmult_gen from assumed.h.
- * secp256k1_schnorrsig_challenge: body proved in C02.challenge / C02.challenge_frame; here frame +
- * scalar_ok + wiring flag.
- * secp256k1_sha256_write / _finalize: the stream contracts of hash_log.h (same requires, same
- * non-ghost frame and effect: hash->bytes += len; *hash and out32 otherwise arbitrary) with a ghost
- * part in the sticky-flag style: one watched stream position verif_c17_wpos of the RUNNING hash
- * (positions are the object's own byte counter, so the copy that gets finalized continues the same
- * stream), expected byte verif_c17_wexp.
- * secp256k1_schnorrsig_sha256_tagged_aggregation: replaced by "state := the HalfAgg/randomizer
- * midstate, 64 bytes absorbed" + call counter (the constant itself is proved in C02.midstates). */
+ * secp256k1_schnorrsig_challenge: body proved in C02.challenge_blocks / C02.challenge_frame; here frame + scalar_ok + log.
+ * secp256k1_sha256_write / _finalize: STREAM level, same requires and non-ghost effect as hash_log.h (hash->bytes += len;
+ * *hash and out32 otherwise arbitrary); positions are the object's own byte counter, so the copy that gets finalized
+ * continues the stream of the running hash.  secp256k1_schnorrsig_sha256_tagged_aggregation: replaced by
+ * "state := the HalfAgg/randomizer midstate, 64 bytes absorbed" (the constant itself is proved in C02.midstates). */
 #ifndef VERIF_ASSUMED_C17_H
 #define VERIF_ASSUMED_C17_H
-/* assumed.h also carries (log-style) contracts for ecmult and scalar_mul; this file attaches its own
- * sticky-flag versions, so the shared declarations are parked under unused names */
+/* assumed.h also carries (log-style) contracts for ecmult and scalar_mul; this file attaches its own, so the shared
+ * declarations are parked under unused names */
 #define LOG_ECMULT_GEN
 #define secp256k1_ecmult c17_unused_assumed_h_ecmult
 #define secp256k1_scalar_mul c17_unused_assumed_h_scalar_mul
@@ -31,37 +27,41 @@
 #undef secp256k1_ecmult
 #undef secp256k1_scalar_mul
 
-/* expectations published by the harness; never assigned by code or contracts */
-const unsigned char *c17_aggsig, *c17_msgs, *c17_sigs; const secp256k1_xonly_pubkey *c17_pks; size_t c17_n, c17_nb;
-int c17_mode;                     /* 0 = aggverify, 1 = inc_aggregate */
-/* ghost state named by the loop invariants in /repo (declared extern there) */
-size_t verif_c17_xo_n;            /* lift_x oracle calls so far */
-size_t verif_c17_fin_n;           /* finalize calls so far == randomizers derived so far */
-int verif_c17_bad, verif_c17_rej; /* sticky: wiring mismatch seen / reject verdict seen */
-size_t verif_c17_gk; int verif_c17_gk_ok;   /* ghost signature index and the harness-computed spec verdict "r_gk < p"; never assigned */
-size_t verif_c17_gb; unsigned char verif_c17_gb_exp; /* ghost byte index into the output aggregate and the expected byte there; never assigned */
-uint64_t verif_c17_wpos; unsigned char verif_c17_wexp; /* watched position of the running hash stream and the expected byte there; never assigned */
-int verif_c17_whit;               /* sticky: the watched position has been written */
+/* ---- published by the harness; never assigned by code or contracts ---- */
+size_t verif_c17_gk;                 /* ghost signature index (aggverify: into the aggregate; inc_aggregate: into the NEW signatures) */
+uint64_t c17_gk_end;                 /* stream length of the running hash after signature gk: 64 + 96*(index in the whole sequence + 1) */
+uint64_t verif_c17_wpos; unsigned char verif_c17_wexp;   /* watched position of the running hash stream and the expected byte there */
 #ifndef VERIF_NATIVE
-/* harness-computed values for the ghost signature index verif_c17_gk (aggverify: index into the aggregate; inc_aggregate:
- * index into the NEW signatures): r_gk, stored x/y of pk_gk, s_gk.  Contracts compare against these only when the
- * signature being processed IS number gk, so no contract reads the caller's big arrays; gk is arbitrary. never assigned */
-wide c17_exp_r, c17_exp_px, c17_exp_py, c17_exp_s;
+wide c17_exp_r, c17_exp_m, c17_exp_px, c17_exp_py, c17_exp_s;   /* r_gk, m_gk, stored x / y of pk_gk, s_gk as integers */
 #endif
-/* logs that live within one iteration / after the loops */
-int c17_last_inf, c17_phase, c17_init_n; size_t c17_mul_n; secp256k1_scalar c17_e; unsigned char c17_dig[32]; secp256k1_gej c17_em_r;
+/* ---- sticky hit flags and logs, written by the contracts ---- */
+int verif_c17_whit, verif_c17_bad;   /* watched position written / written with a different byte */
+int c17_init_n;                      /* initialisations of the running hash */
+int c17_fin_hit; unsigned char c17_dig[32];          /* a finalize at stream length c17_gk_end happened; its digest (= z_gk before reduction) */
+int c17_xo_hit, c17_xo_rej, c17_xo_anyrej;           /* lift_x asked for x = r_gk (even y) / answered 0 for it / answered 0 for anything */
+int c17_ch_hit; secp256k1_scalar c17_e;              /* challenge asked for (r_gk, m_gk, 32 bytes, be(x(pk_gk))); its answer e_gk */
+int c17_em_e_hit, c17_em_z_hit;                      /* ecmult asked for e_gk * P_gk / for z_gk * T_gk */
+secp256k1_gej c17_eP, c17_T, c17_zT;                 /* answers of: e_gk*P_gk; (e_gk*P_gk) + R_gk =: T_gk; z_gk*T_gk or 1*T_gk */
+int c17_T_hit, c17_zT_kind;                          /* T_gk computed; c17_zT holds z_gk*T_gk (1) or 1*T_gk (2) */
+int c17_acc_z, c17_acc_plain;                        /* a group addition took z_gk*T_gk / T_gk itself (or 1*T_gk) as an operand */
+int c17_mul_hit, c17_mul_one_hit;                    /* scalar_mul asked for s_gk * z_gk / for s_gk * 1 (either order) */
+int c17_cmp_hit, c17_cmp_inf;                        /* a group addition with s*G (up to sign) as one operand happened; infinity flag of its result */
 
 #ifndef VERIF_NATIVE
 static inline wide c17_le256(const unsigned char *b) { wide v = 0; int i; for (i = 31; i >= 0; i--) v = (v << 8) | W(b[i]); return v; }
 static inline wide c17_redn(wide v) { wide n = N_(); return v >= n ? v - n : v; }
-#define C17_K (verif_c17_fin_n - 1)   /* index (relative to the first new signature) of the signature being processed, valid after the finalize of the iteration */
-#define C17_XO_OK(x, odd) ((odd) == 0 && verif_c17_fin_n >= 1 && C17_K < c17_n && fe_canon(x) && (C17_K != verif_c17_gk || fval(x) == c17_exp_r))
-#define C17_CH_OK(r32, msg, msglen, pk32) (verif_c17_fin_n >= 1 && C17_K < c17_n && (r32) == c17_aggsig + 32 * C17_K && (msg) == c17_msgs + 32 * C17_K && (msglen) == 32 && \
-    (C17_K != verif_c17_gk || be256(pk32) == c17_exp_px))
+static inline wide c17_modp(wide v) { wide p = P_(); int i; for (i = 0; i < 9; i++) if (v >= p) v -= p; return v; }   /* magnitude <= 4: v < 9p */
 #define C17_UPD(flag, cond) (flag == ((__CPROVER_old(flag) != 0 || (cond)) ? 1 : 0))
 #define C17_COVERS (__CPROVER_old(hash->bytes) <= verif_c17_wpos && verif_c17_wpos < __CPROVER_old(hash->bytes) + len)
-#define C17_EXP_END (c17_mode == 0 ? 64 + 96 * ((uint64_t)__CPROVER_old(verif_c17_fin_n) + 1) : 64 + 96 * ((uint64_t)c17_nb + (uint64_t)__CPROVER_old(verif_c17_fin_n) + 1))
+#define C17_SVAL_OLD(a) (W(__CPROVER_old((a)->d[0])) | (W(__CPROVER_old((a)->d[1])) << 64) | (W(__CPROVER_old((a)->d[2])) << 128) | (W(__CPROVER_old((a)->d[3])) << 192))
+#define C17_Z (c17_redn(be256(c17_dig)))
+#define C17_B4(g, a, i) g[i] == a[i] && g[i+1] == a[i+1] && g[i+2] == a[i+2] && g[i+3] == a[i+3]
+#define C17_K4(g, i) g[i] == __CPROVER_old(g[i]) && g[i+1] == __CPROVER_old(g[i+1]) && g[i+2] == __CPROVER_old(g[i+2]) && g[i+3] == __CPROVER_old(g[i+3])
+#define C17_B32(g, a) (C17_B4(g, a, 0) && C17_B4(g, a, 4) && C17_B4(g, a, 8) && C17_B4(g, a, 12) && C17_B4(g, a, 16) && C17_B4(g, a, 20) && C17_B4(g, a, 24) && C17_B4(g, a, 28))
+#define C17_K32(g) (C17_K4(g, 0) && C17_K4(g, 4) && C17_K4(g, 8) && C17_K4(g, 12) && C17_K4(g, 16) && C17_K4(g, 20) && C17_K4(g, 24) && C17_K4(g, 28))
 #endif
+#define C17_RESET() do { verif_c17_whit = 0; verif_c17_bad = 0; c17_init_n = 0; c17_fin_hit = 0; c17_xo_hit = 0; c17_xo_rej = 0; c17_xo_anyrej = 0; \
+    c17_ch_hit = 0; c17_em_e_hit = 0; c17_em_z_hit = 0; c17_T_hit = 0; c17_zT_kind = 0; c17_acc_z = 0; c17_acc_plain = 0; c17_mul_hit = 0; c17_mul_one_hit = 0; c17_cmp_hit = 0; c17_cmp_inf = 0; g_gen_n = 0; } while (0)
 
 static void secp256k1_schnorrsig_sha256_tagged_aggregation(secp256k1_sha256 *sha)
 __CPROVER_requires(__CPROVER_w_ok(sha, sizeof(*sha)))
@@ -78,63 +78,89 @@ __CPROVER_ensures(hash->bytes == __CPROVER_old(hash->bytes) + len)
 __CPROVER_ensures(C17_UPD(verif_c17_whit, C17_COVERS))
 __CPROVER_ensures(C17_UPD(verif_c17_bad, C17_COVERS && data[verif_c17_wpos - __CPROVER_old(hash->bytes)] != verif_c17_wexp))
 ;
-#define C17_D4(i) c17_dig[i] == out32[i] && c17_dig[i+1] == out32[i+1] && c17_dig[i+2] == out32[i+2] && c17_dig[i+3] == out32[i+3]
 static void secp256k1_sha256_finalize(const secp256k1_hash_ctx *hash_ctx, secp256k1_sha256 *hash, unsigned char *out32)
 __CPROVER_requires(__CPROVER_rw_ok(hash, sizeof(*hash)) && __CPROVER_w_ok(out32, 32) && hash_ctx != NULL)
-__CPROVER_assigns(*hash, __CPROVER_object_upto(out32, 32), verif_c17_fin_n, verif_c17_bad, c17_dig)
-__CPROVER_ensures(verif_c17_fin_n == __CPROVER_old(verif_c17_fin_n) + 1)
-__CPROVER_ensures(C17_D4(0) && C17_D4(4) && C17_D4(8) && C17_D4(12) && C17_D4(16) && C17_D4(20) && C17_D4(24) && C17_D4(28))
-__CPROVER_ensures(C17_UPD(verif_c17_bad, __CPROVER_old(hash->bytes) != C17_EXP_END))
+__CPROVER_assigns(*hash, __CPROVER_object_upto(out32, 32), c17_fin_hit, c17_dig)
+__CPROVER_ensures(C17_UPD(c17_fin_hit, __CPROVER_old(hash->bytes) == c17_gk_end))
+__CPROVER_ensures(__CPROVER_old(hash->bytes) == c17_gk_end ? C17_B32(c17_dig, out32) : C17_K32(c17_dig))
 ;
+/* real body: r->x = *x, y normalised and possibly negated once (magnitude <= 2), never infinity */
+#define C17_XO_IS_GK (odd == 0 && c17_modp(fval(x)) == c17_exp_r)
 static int secp256k1_ge_set_xo_var(secp256k1_ge *r, const secp256k1_fe *x, int odd)
 __CPROVER_requires(__CPROVER_w_ok(r, sizeof(*r)) && __CPROVER_r_ok(x, sizeof(*x)) && fe_mag(x, 4))
-__CPROVER_assigns(*r, verif_c17_xo_n, verif_c17_bad, verif_c17_rej)
+__CPROVER_assigns(*r, c17_xo_hit, c17_xo_rej, c17_xo_anyrej)
 __CPROVER_ensures(__CPROVER_return_value == 0 || __CPROVER_return_value == 1)
-__CPROVER_ensures(__CPROVER_return_value == 1 ==> (ge_ok1(r) && r->infinity == 0))
-__CPROVER_ensures(verif_c17_xo_n == __CPROVER_old(verif_c17_xo_n) + 1)
-__CPROVER_ensures(C17_UPD(verif_c17_bad, !C17_XO_OK(x, odd) || verif_c17_xo_n != verif_c17_fin_n))
-__CPROVER_ensures(C17_UPD(verif_c17_rej, __CPROVER_return_value == 0))
+__CPROVER_ensures(__CPROVER_return_value == 1 ==> (FE_EQ_OLD(r->x, *x) && fe_mag(&r->y, 2) && r->infinity == 0))
+__CPROVER_ensures(C17_UPD(c17_xo_hit, C17_XO_IS_GK))
+__CPROVER_ensures(C17_UPD(c17_xo_rej, C17_XO_IS_GK && __CPROVER_return_value == 0))
+__CPROVER_ensures(C17_UPD(c17_xo_anyrej, __CPROVER_return_value == 0))
 ;
+#define C17_CH_IS_GK (msglen == 32 && be256(r32) == c17_exp_r && be256(msg) == c17_exp_m && be256(pubkey32) == c17_exp_px)
 static void secp256k1_schnorrsig_challenge(const secp256k1_hash_ctx *hash_ctx, secp256k1_scalar* e, const unsigned char *r32, const unsigned char *msg, size_t msglen, const unsigned char *pubkey32)
 __CPROVER_requires(hash_ctx != NULL && __CPROVER_w_ok(e, sizeof(*e)) && __CPROVER_r_ok(r32, 32) && __CPROVER_r_ok(pubkey32, 32) && (msglen == 0 || __CPROVER_r_ok(msg, msglen)))
-__CPROVER_assigns(*e, verif_c17_bad, c17_e, c17_phase)
-__CPROVER_ensures(scalar_ok(e) && SC_EQ(c17_e, *e) && c17_phase == 1)
-__CPROVER_ensures(C17_UPD(verif_c17_bad, !C17_CH_OK(r32, msg, msglen, pubkey32)))
+__CPROVER_assigns(*e, c17_ch_hit, c17_e)
+__CPROVER_ensures(scalar_ok(e))
+__CPROVER_ensures(C17_UPD(c17_ch_hit, C17_CH_IS_GK))
+__CPROVER_ensures(C17_CH_IS_GK ? SC_EQ(c17_e, *e) : SC_KEEP(c17_e))
 ;
-/* two calls per signature: phase 1 (after challenge): e_i * P_i;  phase 2 (after R_i + e_i P_i): z_i * T_i, skipped for i = 0 */
-#define C17_EM1_OK (na != NULL && ng == NULL && SC_EQ(*na, c17_e) && C17_K < c17_n && a->infinity == 0 && fval(&a->z) == 1 && \
-    (C17_K != verif_c17_gk || (fval(&a->x) == c17_exp_px && fval(&a->y) == c17_exp_py)))
-#define C17_EM2_OK (na != NULL && ng == NULL && C17_K != 0 && sval(na) == c17_redn(be256(c17_dig)))
-#define C17_SVAL_OLD(a) (W(__CPROVER_old((a)->d[0])) | (W(__CPROVER_old((a)->d[1])) << 64) | (W(__CPROVER_old((a)->d[2])) << 128) | (W(__CPROVER_old((a)->d[3])) << 192))
+/* limb-wise comparisons between a logged point g and an argument q as it was on entry / a result r */
+#define C17_FE_OO(g, q) (__CPROVER_old((g).n[0]) == __CPROVER_old((q).n[0]) && __CPROVER_old((g).n[1]) == __CPROVER_old((q).n[1]) && __CPROVER_old((g).n[2]) == __CPROVER_old((q).n[2]) && \
+    __CPROVER_old((g).n[3]) == __CPROVER_old((q).n[3]) && __CPROVER_old((g).n[4]) == __CPROVER_old((q).n[4]))
+#define C17_GEJ_OO(g, q) (C17_FE_OO((g).x, (q)->x) && C17_FE_OO((g).y, (q)->y) && C17_FE_OO((g).z, (q)->z) && __CPROVER_old((g).infinity) == __CPROVER_old((q)->infinity))
+#define C17_GEJ_IS(g, r) (FE_EQ((g).x, (r)->x) && FE_EQ((g).y, (r)->y) && FE_EQ((g).z, (r)->z) && (g).infinity == (r)->infinity)
+#define C17_GEJ_KEEP(g) (FE_KEEP((g).x) && FE_KEEP((g).y) && FE_KEEP((g).z) && (g).infinity == __CPROVER_old((g).infinity))
+#define c17_old_fe_is(a, f, v) ((W(__CPROVER_old((a)->f.n[0])) + (W(__CPROVER_old((a)->f.n[1])) << 52) + (W(__CPROVER_old((a)->f.n[2])) << 104) + (W(__CPROVER_old((a)->f.n[3])) << 156) + (W(__CPROVER_old((a)->f.n[4])) << 208)) == (v))
+/* e_gk * P_gk: the multiplier is the challenge answer, the point is the loaded key (affine coordinates, z = 1); a G multiplier may be absent or zero.
+ * z_gk * T_gk (or 1 * T_gk): the point is the logged T_gk */
+#define C17_NG_NONE (ng == NULL || sval(ng) == 0)
+#define C17_EM_IS_E (na != NULL && C17_NG_NONE && __CPROVER_old(c17_ch_hit) != 0 && sval(na) == sval(&c17_e) && __CPROVER_old(a->infinity) == 0 && \
+    c17_old_fe_is(a, z, 1) && c17_old_fe_is(a, x, c17_exp_px) && c17_old_fe_is(a, y, c17_exp_py))
+#define C17_EM_ON_T (na != NULL && C17_NG_NONE && __CPROVER_old(c17_T_hit) != 0 && C17_GEJ_OO(c17_T, a))
+#define C17_EM_IS_Z (C17_EM_ON_T && c17_fin_hit != 0 && sval(na) == C17_Z)
+#define C17_EM_IS_ONE (C17_EM_ON_T && sval(na) == 1)
 static void secp256k1_ecmult(secp256k1_gej *r, const secp256k1_gej *a, const secp256k1_scalar *na, const secp256k1_scalar *ng)
 __CPROVER_requires(__CPROVER_w_ok(r, sizeof(*r)) && __CPROVER_r_ok(a, sizeof(*a)) && gej_ok(a))
 __CPROVER_requires((na == NULL || (__CPROVER_r_ok(na, sizeof(*na)) && scalar_ok(na))) && (ng == NULL || (__CPROVER_r_ok(ng, sizeof(*ng)) && scalar_ok(ng))))
-__CPROVER_assigns(*r, verif_c17_bad, c17_phase)
+__CPROVER_assigns(*r, c17_em_e_hit, c17_em_z_hit, c17_eP, c17_zT, c17_zT_kind)
 __CPROVER_ensures(gej_ok(r))
-__CPROVER_ensures(c17_phase == (__CPROVER_old(c17_phase) == 1 ? 2 : 4))
-__CPROVER_ensures(C17_UPD(verif_c17_bad, !((__CPROVER_old(c17_phase) == 1 && C17_EM1_OK) || (__CPROVER_old(c17_phase) == 3 && C17_EM2_OK))))
+__CPROVER_ensures(C17_UPD(c17_em_e_hit, C17_EM_IS_E))
+__CPROVER_ensures(C17_EM_IS_E ? C17_GEJ_IS(c17_eP, r) : C17_GEJ_KEEP(c17_eP))
+__CPROVER_ensures(C17_UPD(c17_em_z_hit, C17_EM_IS_Z))
+__CPROVER_ensures((C17_EM_IS_Z || C17_EM_IS_ONE) ? (C17_GEJ_IS(c17_zT, r) && c17_zT_kind == (C17_EM_IS_Z ? 1 : 2)) : (C17_GEJ_KEEP(c17_zT) && c17_zT_kind == __CPROVER_old(c17_zT_kind)))
 ;
+/* T_gk = (e_gk * P_gk) + R_gk: the Jacobian operand is the logged product, the affine operand has x = r_gk */
+#define C17_ADDGE_IS_T (__CPROVER_old(c17_em_e_hit) != 0 && C17_GEJ_OO(c17_eP, a) && c17_modp(fval(&b->x)) == c17_exp_r)
 static void secp256k1_gej_add_ge_var(secp256k1_gej *r, const secp256k1_gej *a, const secp256k1_ge *b, secp256k1_fe *rzr)
 __CPROVER_requires(__CPROVER_w_ok(r, sizeof(*r)) && __CPROVER_r_ok(a, sizeof(*a)) && __CPROVER_r_ok(b, sizeof(*b)) && rzr == NULL && gej_ok(a) && ge_ok(b))
-__CPROVER_assigns(*r, verif_c17_bad, c17_phase)
-__CPROVER_ensures(gej_ok(r) && c17_phase == 3)
-__CPROVER_ensures(C17_UPD(verif_c17_bad, __CPROVER_old(c17_phase) != 2))
+__CPROVER_assigns(*r, c17_T_hit, c17_T)
+__CPROVER_ensures(gej_ok(r))
+__CPROVER_ensures(C17_UPD(c17_T_hit, C17_ADDGE_IS_T))
+__CPROVER_ensures(C17_ADDGE_IS_T ? C17_GEJ_IS(c17_T, r) : C17_GEJ_KEEP(c17_T))
 ;
-/* the accumulator operand carries no precondition beyond validity (the loop contract does not track its limbs) */
+/* additions, either operand order: (1) the comparison lhs == rhs has +-(s*G) as an operand (same x and z limbs as the ecmult_gen result);
+ * (2) the accumulation takes z_gk*T_gk, or T_gk itself / 1*T_gk, as an operand */
+#define C17_IS_LHS(q) (g_gen_n >= 1 && __CPROVER_old((q)->x.n[0]) == g_gen_r0.x.n[0] && __CPROVER_old((q)->x.n[1]) == g_gen_r0.x.n[1] && __CPROVER_old((q)->x.n[2]) == g_gen_r0.x.n[2] && \
+    __CPROVER_old((q)->x.n[3]) == g_gen_r0.x.n[3] && __CPROVER_old((q)->x.n[4]) == g_gen_r0.x.n[4] && __CPROVER_old((q)->z.n[0]) == g_gen_r0.z.n[0] && __CPROVER_old((q)->z.n[1]) == g_gen_r0.z.n[1] && \
+    __CPROVER_old((q)->z.n[2]) == g_gen_r0.z.n[2] && __CPROVER_old((q)->z.n[3]) == g_gen_r0.z.n[3] && __CPROVER_old((q)->z.n[4]) == g_gen_r0.z.n[4] && __CPROVER_old((q)->infinity) == g_gen_r0.infinity)
+#define C17_OPND_ZT(kind) (__CPROVER_old(c17_zT_kind) == (kind) && (C17_GEJ_OO(c17_zT, a) || C17_GEJ_OO(c17_zT, b)))
+#define C17_OPND_T (__CPROVER_old(c17_T_hit) != 0 && (C17_GEJ_OO(c17_T, a) || C17_GEJ_OO(c17_T, b)))
 static void secp256k1_gej_add_var(secp256k1_gej *r, const secp256k1_gej *a, const secp256k1_gej *b, secp256k1_fe *rzr)
 __CPROVER_requires(__CPROVER_w_ok(r, sizeof(*r)) && __CPROVER_r_ok(a, sizeof(*a)) && __CPROVER_r_ok(b, sizeof(*b)) && rzr == NULL)
-__CPROVER_assigns(*r, c17_last_inf, c17_phase, verif_c17_bad)
-__CPROVER_ensures(gej_ok(r) && c17_last_inf == r->infinity && c17_phase == 0)
-/* inside the loop (before the one ecmult_gen call): rhs += T_0 directly, rhs += z_i*T_i for i != 0 */
-__CPROVER_ensures(C17_UPD(verif_c17_bad, g_gen_n == 0 && !((__CPROVER_old(c17_phase) == 3 && C17_K == 0) || (__CPROVER_old(c17_phase) == 4 && C17_K != 0))))
+__CPROVER_assigns(*r, c17_cmp_hit, c17_cmp_inf, c17_acc_z, c17_acc_plain)
+__CPROVER_ensures(gej_ok(r))
+__CPROVER_ensures(C17_UPD(c17_cmp_hit, C17_IS_LHS(a) || C17_IS_LHS(b)))
+__CPROVER_ensures((C17_IS_LHS(a) || C17_IS_LHS(b)) ? c17_cmp_inf == r->infinity : c17_cmp_inf == __CPROVER_old(c17_cmp_inf))
+__CPROVER_ensures(C17_UPD(c17_acc_z, C17_OPND_ZT(1)))
+__CPROVER_ensures(C17_UPD(c17_acc_plain, C17_OPND_ZT(2) || C17_OPND_T))
 ;
-/* inc_aggregate: s_i * z_i for i != 0 */
-#define C17_MUL_OK (verif_c17_fin_n >= 1 && c17_nb + C17_K != 0 && C17_K < c17_n && sval(b) == c17_redn(be256(c17_dig)) && (C17_K != verif_c17_gk || C17_SVAL_OLD(a) == c17_redn(c17_exp_s)))
+/* inc_aggregate: s_gk * z_gk, either operand order */
+#define C17_MUL_IS_GK (c17_fin_hit != 0 && ((C17_SVAL_OLD(a) == c17_redn(c17_exp_s) && C17_SVAL_OLD(b) == C17_Z) || (C17_SVAL_OLD(b) == c17_redn(c17_exp_s) && C17_SVAL_OLD(a) == C17_Z)))
 static void secp256k1_scalar_mul(secp256k1_scalar *r, const secp256k1_scalar *a, const secp256k1_scalar *b)
 __CPROVER_requires(__CPROVER_w_ok(r, sizeof(*r)) && __CPROVER_r_ok(a, sizeof(*a)) && __CPROVER_r_ok(b, sizeof(*b)))
 __CPROVER_requires(scalar_ok(a) && scalar_ok(b))
-__CPROVER_assigns(*r, verif_c17_bad, c17_mul_n)
-__CPROVER_ensures(scalar_ok(r) && c17_mul_n == __CPROVER_old(c17_mul_n) + 1)
-__CPROVER_ensures(C17_UPD(verif_c17_bad, !C17_MUL_OK))
+__CPROVER_assigns(*r, c17_mul_hit, c17_mul_one_hit)
+__CPROVER_ensures(scalar_ok(r))
+__CPROVER_ensures(C17_UPD(c17_mul_hit, C17_MUL_IS_GK))
+__CPROVER_ensures(C17_UPD(c17_mul_one_hit, (C17_SVAL_OLD(a) == c17_redn(c17_exp_s) && C17_SVAL_OLD(b) == 1) || (C17_SVAL_OLD(b) == c17_redn(c17_exp_s) && C17_SVAL_OLD(a) == 1)))
 ;
 #endif
